@@ -63,11 +63,27 @@ static void note_site(void* pc) {
   for (int i = 0; i < n_alloc_sites; i++) if (alloc_sites[i].pc == pc) { alloc_sites[i].n++; return; }
   if (n_alloc_sites < 512) alloc_sites[n_alloc_sites++] = {pc, 1};
 }
+// The exploring parent process recycles its own blocks (size classes: multiples of 16 up to 1 KiB, then powers of two); only the
+// forked children, which run the code under test, never reuse memory.  Without this the parent grows with every execution
+// and fork() gets slower and slower.
+static bool g_in_child = false;
+static void* parent_free[128];
+static inline int parent_class(size_t need) {
+  if (need <= 1024) return (int)(need / GRAN);                     // 1..64
+  int c = 65; size_t s = 2048; while (s < need && c < 127) { s <<= 1; c++; }
+  return c;
+}
+static inline size_t parent_class_size(int c) { return c <= 64 ? (size_t)c * GRAN : (size_t)2048 << (c - 65); }
 static void* arena_alloc(size_t size, size_t align) {
   if (arena_state.load(std::memory_order_acquire) != 2) arena_init();
   if (align < GRAN) align = GRAN;
   size_t need = ((size + GRAN - 1) & ~(GRAN - 1));
   if (need == 0) need = GRAN;
+  if (!g_in_child && align == GRAN) {
+    int c = parent_class(need);
+    need = parent_class_size(c);
+    if (parent_free[c]) { void* p = parent_free[c]; parent_free[c] = *(void**)p; return p; }
+  }
   size_t total = need + align + GRAN; // header granule + alignment slack
   size_t off = arena_off.fetch_add(total);
   if (off + total > ARENA) { write(2, "xvrt: arena exhausted\n", 22); _exit(2); }
@@ -92,6 +108,9 @@ static void arena_free(void* p) {
     report_double_free(p);
     return;
   }
+  if (!g_in_child && need == parent_class_size(parent_class(need)) && shadow[g0] == 1 && hdr == (size_t*)(((uintptr_t)hdr + GRAN - 1) & ~(uintptr_t)(GRAN - 1))) {
+    int c = parent_class(need); *(void**)p = parent_free[c]; parent_free[c] = p; return;
+  }
   for (size_t g = 0; g < need / GRAN; g++) shadow[g0 + g] = 2;
   memset(p, 0xDD, need);
 }
@@ -108,7 +127,6 @@ enum Status { RUNNABLE = 0, PARKED = 1, BLOCKED = 2, DONE = 3, WAITSTART = 4 };
 static int start_after[8];
 enum Mode { M_DFS = 0, M_RANDOM = 1, M_REPLAY_TIDS = 2 };
 
-static bool g_in_child = false;
 static volatile bool active = false;
 static thread_local int my_tid = -1;
 static int nthreads = 0;
@@ -145,7 +163,8 @@ static const char* cur_op[16]; static bool in_op[16]; static bool op_blocking[16
 
 // spin detection
 struct SpinEnt { const void* addr; uint64_t val; int cnt; };
-static SpinEnt spin_tab[MAXT][16]; static int spin_n[MAXT]; static unsigned long spin_epoch[MAXT];
+static constexpr int SPIN_HIST = 64;
+static SpinEnt spin_tab[MAXT][SPIN_HIST]; static int spin_n[MAXT]; static unsigned long spin_epoch[MAXT];
 static constexpr int SPIN_REPEAT = 3;
 
 // log buffer
@@ -301,17 +320,25 @@ static void after_access(int kind, const void* addr, uint64_t val) {
   if (kind == K_WRITE) { write_epoch++; allparked_rounds = 0; spin_n[me] = 0; solo_wakes = 0; return; }
   if (kind == K_YIELD) { status[me] = PARKED; park_epoch[me] = write_epoch; int next = pick(me); switch_to(next, me); return; }
   if (kind != K_READ) return;
+  // spin detection: the reads of this thread since the last write of anybody end with SPIN_REPEAT identical blocks of
+  // (address, value) pairs (period <= 8) - the thread is going round a wait loop.  Re-reading one location between reads of
+  // *different* locations (a version re-check while walking a list) is not a spin.
   if (spin_epoch[me] != write_epoch) { spin_epoch[me] = write_epoch; spin_n[me] = 0; }
-  for (int i = 0; i < spin_n[me]; i++) {
-    if (spin_tab[me][i].addr == addr && spin_tab[me][i].val == val) {
-      if (++spin_tab[me][i].cnt >= SPIN_REPEAT) {
-        status[me] = PARKED; park_epoch[me] = write_epoch; spin_n[me] = 0;
-        int next = pick(me); switch_to(next, me);
-      }
+  if (spin_n[me] == SPIN_HIST) { memmove(&spin_tab[me][0], &spin_tab[me][SPIN_HIST / 2], sizeof(SpinEnt) * (SPIN_HIST / 2)); spin_n[me] = SPIN_HIST / 2; }
+  spin_tab[me][spin_n[me]++] = {addr, val, 1};
+  int n = spin_n[me];
+  for (int per = 1; per <= 8 && per * SPIN_REPEAT <= n; per++) {
+    bool same = true;
+    for (int i = 0; i < per * (SPIN_REPEAT - 1) && same; i++) {
+      const SpinEnt& x = spin_tab[me][n - 1 - i]; const SpinEnt& y = spin_tab[me][n - 1 - i - per];
+      same = x.addr == y.addr && x.val == y.val;
+    }
+    if (same) {
+      status[me] = PARKED; park_epoch[me] = write_epoch; spin_n[me] = 0;
+      int next = pick(me); switch_to(next, me);
       return;
     }
   }
-  if (spin_n[me] < 16) spin_tab[me][spin_n[me]++] = {addr, val, 1};
 }
 
 // ------------------------------------------------------------------------------------------
